@@ -49,6 +49,25 @@ let () = run_protocol [
       (match mk_model dim sd ll tp geo ls an ang with None -> VNone
        | Some m -> let (a, b) = krige_system o m cf_cov (if gb exact then cf_nug else cf_cov) (gb unb) (gv err) (gm cond) (gm tgt) in
                    VT [VM a; VM b]) | _ -> failwith "arity");
+  (* holder history: model args (8), conditioning points, then operations
+       z:0 + 8 model args = model replacement | z:1 z:kind vec = in-place setter | z:2 = set_condition() | z:3 m = set_condition(new points)
+     result: present model state and the cached isometrized conditioning positions *)
+  "holder", (function dim :: sd :: ll :: tp :: geo :: ls :: an :: ang :: cond :: rest ->
+      let rec ops = function
+        | [] -> []
+        | VZ 0 :: d :: s :: l :: t :: g :: a :: b :: c :: r ->
+            (match mk_model d s l t g a b c with None -> failwith "bad replacement model" | Some m -> HSetModel m :: ops r)
+        | VZ 1 :: VZ 0 :: v :: r -> HInPlace (OpLen (gv v)) :: ops r
+        | VZ 1 :: VZ 1 :: v :: r -> HInPlace (OpAnis (gv v)) :: ops r
+        | VZ 1 :: VZ 2 :: v :: r -> HInPlace (OpAngles (gv v)) :: ops r
+        | VZ 2 :: r -> HRefresh :: ops r
+        | VZ 3 :: c :: r -> HSetCond (gm c) :: ops r
+        | _ -> failwith "bad holder op list" in
+      (match mk_model dim sd ll tp geo ls an ang with None -> VNone
+       | Some m -> let h = hrun o (hinit o m (gm cond)) (ops rest) in
+                   VT [show_model h.h_model; VM h.h_kpos]) | _ -> failwith "arity");
+  "latlon_bins_last_edge", (function [geo; pts; has; md] ->
+      VF (latlon_bins_last_edge o (gf geo) (gm pts) (if gb has then Some (gf md) else None)) | _ -> failwith "arity");
   "latlon_bins_max_dist", (function [geo; pts] -> VF (latlon_bins_max_dist o (gf geo) (gm pts)) | _ -> failwith "arity");
   "in_bin", (function [lo; hi; d] -> VB (in_bin o (gf lo) (gf hi) (gf d)) | _ -> failwith "arity");
 ]
